@@ -6,6 +6,7 @@
 #[path = "/repo/blots-wasm/src/lib.rs"]
 mod wasm_driver;
 
+mod c01;
 mod c02;
 mod c03;
 mod c04;
@@ -145,6 +146,14 @@ fn main() {
                 }
             };
             write_out(&args[3], &out);
+        }
+        ("worker", "c01") => {
+            let cases = read_cases(&args[3]);
+            let from: usize = opt(&args, "--from").and_then(|s| s.parse().ok()).unwrap_or(0);
+            c01::worker(&cases, from, &args[4]);
+        }
+        ("gen", "c01") => {
+            write_out(&args[3], &c01::gen_texts(seed, n));
         }
         ("export", "units") => {
             std::fs::write(&args[3], serde_json::to_string(&c17::export()).unwrap()).unwrap();
